@@ -347,7 +347,18 @@ def run_impl(script, timeout_s=10):
                 elif cmd[0] == "len":
                     p = slots[cmd[1]]
                     try:
-                        outs.append(str(len(p.all(cmd[2]))))
+                        # the builtin len() — on a copy at the same position — wherever the pattern ends within the bound
+                        # (len() of an endless pattern would count to LENGTH_MAX); the pattern itself is then drained and
+                        # rewound by all(), as before
+                        builtin = None
+                        try:
+                            probe = p.copy()
+                            if len(probe.all(cmd[2])) < cmd[2]:
+                                builtin = len(p.copy())
+                        except Exception:
+                            builtin = None
+                        n_all = len(p.all(cmd[2]))
+                        outs.append(str(n_all if builtin is None or builtin == n_all else "len()=%d,all()=%d" % (builtin, n_all)))
                     except Exception:
                         outs.append("err")
                 elif cmd[0] == "reset":
